@@ -423,33 +423,41 @@ def gen_lines(g, n):
         add("howell", "howell %x %x %s %s" % (rows, cols, hx(m), flat))
         add("howell", "kermod %x %x %s %s" % (rows, cols, hx(m), flat))
     # --- represent_integer / represent_integer_non_diag: the real functions (level 1 constants) over a byte stream
-    pL = vlib.LEVELS[1]["p"]
-    trials = klpt_trials()
-    nrep = max(24, min(600, ncases // 400))
+    for line in gen_repint(g, 1, max(24, min(600, ncases // 400))):
+        add("repint", line)
+    return out
+
+
+def gen_repint(g, lvl, nrep):
+    """op lines for the real represent_integer(_non_diag) at security level `lvl` (p and trial budget of that level)"""
+    r = g.rng
+    pL = vlib.LEVELS[lvl]["p"]
+    trials = klpt_trials(lvl)
+    out = []
     for i in range(nrep):
         nd = i % 2
         c = r.below(10)
         if c == 0:
-            tgt = r.bits(1 + r.below(240)) + 1; cl = "4n<p (empty first interval)"
+            tgt = r.bits(1 + r.below(pL.bit_length() - 12)) + 1; cl = "4n<p (empty first interval)"
             stream = bytes(r.below(256) for _ in range(64))
         elif c == 1:
             tgt = pL * 2 ** r.below(12) + r.bits(200); cl = "n~p"
             stream = r.bits(8 * 40000).to_bytes(40000, "little")
         elif c == 2:
-            ub = r.choice([100, 124]); u = r.bits(ub) | 1 | (1 << (ub - 1)); L = pL.bit_length() + 15 - ub
+            ub = pL.bit_length() // 2 - r.choice([1, 25]); u = r.bits(ub) | 1 | (1 << (ub - 1)); L = pL.bit_length() + 15 - ub
             tgt = u * (2 ** L - u); cl = "stream-too-short"
             stream = bytes(r.below(256) for _ in range(1 + r.below(12)))
         else:
-            ub = r.choice([90, 100, 110, 120, 124, 126, 130]); u = r.bits(ub) | 1 | (1 << (ub - 1)); L = pL.bit_length() + 15 - ub
+            ub = pL.bit_length() // 2 - r.choice([35, 25, 15, 5, 1, -1, -5]); u = r.bits(ub) | 1 | (1 << (ub - 1)); L = pL.bit_length() + 15 - ub
             tgt = u * (2 ** L - u); cl = "fixed-degree-like u(2^L-u)"
             stream = r.bits(8 * 40000).to_bytes(40000, "little")
-        g.count("repint:" + cl)
-        add("repint", "repint %x %x %s %s %s" % (nd, trials, hx(pL), hx(tgt), stream.hex()))
+        g.count("repint.lvl%d:%s" % (lvl, cl))
+        out.append("repint %x %x %s %s %s" % (nd, trials, hx(pL), hx(tgt), stream.hex()))
     return out
 
 
-def klpt_trials():
-    txt = open(os.path.join(vlib.REPO, "src", "precomp", "ref", "lvl1", "include", "klpt_constants.h")).read()
+def klpt_trials(lvl=1):
+    txt = open(os.path.join(vlib.REPO, "src", "precomp", "ref", "lvl%d" % lvl, "include", "klpt_constants.h")).read()
     return int(re.search(r"#define\s+KLPT_repres_num_gamma_trial\s+(\d+)", txt).group(1))
 
 
@@ -946,6 +954,24 @@ def run(ctx):
     ok = vlib.proof_stage(ctx, ["SqiProps.C17"], searcher=searcher, extra_targets=["driver"])
     if "hs" not in state:
         state["hs"] = harness_stage(ctx, exe, 10**4 if ctx.quick else 10**6)
+    # represent_integer at the two other security levels (separate harness binaries: the level is a compile-time choice)
+    for lvl in (3, 5):
+        exe_l = ctx.cc_harness(HARNESS, os.path.join(ctx.tmp, "drv_int_l%d" % lvl), lvl, build=b)
+        gl = Gen.__new__(Gen); gl.ctx = ctx; gl.rng = ctx.rng.fork("c17-lvl%d" % lvl); gl.hist = {}
+        ll = gen_repint(gl, lvl, 8 if ctx.quick else 120)
+        cout_l, mout_l = run_parallel(ctx, exe_l, ll)
+        dis = [dict(op=l[:200], impl=c[:200], model=m[:200]) for l, c, m in zip(ll, cout_l, mout_l) if c != m]
+        ctx.evaluations += len(ll)
+        ctx.obligation("correspondence repint level %d (%d ops)" % (lvl, len(ll)), not dis, json.dumps(dis[:2])[:600])
+        ctx.coverage.setdefault("correspondence", {})["repint-lvl%d" % lvl] = dict(ops=len(ll), disagreements=len(dis))
+        ctx.coverage.setdefault("generator_histogram", {}).update(gl.hist)
+        for l, c, m in zip(ll, cout_l, mout_l):
+            o = oracle(l, c)
+            if o:
+                ctx.violation(o[0], o[1], dict(op=l[:400], impl_output=c, model_output=m, level=lvl))
+            elif c != m:
+                ctx.violation("corr:repint-lvl%d:%s" % (lvl, l[:80]), "model and implementation disagree on represent_integer at level %d although the implementation satisfies the defining equations" % lvl,
+                              dict(op=l[:400], impl=c, model=m), found=False)
     # UBSan replay of the shift witness (known finding) on the real code
     rp = ubsan_replay(ctx)
     if rp is not None:
